@@ -32,7 +32,7 @@ struct AccountOptions {
     /// The BIP-44 account index for deriving a private key from the mnemonic
     /// seed phrase. The derived key will use the path "m/44'/60'/0'/0/{index}".
     #[clap(long, env, default_value_t = 0)]
-    account_index: usize,
+    account_index: u32,
 
     /// Manually specified HD path for deriving the account key. This option can
     /// not be used in conjunction with the "--account-index" option.
@@ -45,7 +45,7 @@ impl AccountOptions {
     pub fn private_key(&self) -> Result<PrivateKey> {
         let seed = self.mnemonic.seed(&self.password);
         let path = match &self.hd_path {
-            None => hdk::Path::for_index(self.account_index),
+            None => hdk::Path::for_index(self.account_index as usize),
             Some(hd_path) => hd_path.parse()?,
         };
         hdk::derive(seed, &path)
